@@ -235,7 +235,7 @@ def plot_burst_detect_param(df_features, sig, fs, burst_param, thresh,
 
         # Remove start / end cycles that tlims falls between
         df_features = df_features[(df_features['sample_last_' + side_e] >= 0) & \
-                                  (df_features['sample_next_' + side_e] < xlim[1]*fs)]
+                                  (df_features['sample_next_' + side_e] < len(times))]
 
     # Plot burst param
     if interp:
